@@ -135,6 +135,8 @@ def run(tier, seed, replay=None):
                             probs.append(f"check ({way}) lists {gd[rel]} for {rel}, scan measures {want} above 30 lines")
                         if scanned[rel]:
                             chk.nontrivial.add((ci, rel, way))
+                    elif rel in gd and not hidden and way != "relative file" or (rel in gd and not hidden and not excluded and way == "relative file"):
+                        probs.append(f"scan does not analyse {rel} (it is not in the report) but check ({way}) checks it")
                     elif excluded and rel in gd:
                         probs.append(f"{rel} is excluded (scan skips it) but check ({way}) checks it")
                     elif hidden and way != "relative file" and rel in gd:
